@@ -411,3 +411,29 @@ def exc_class(e):
     while getattr(ee, "exceptions", None):
         ee = ee.exceptions[0]
     return type(ee).__name__
+
+
+def warm_all(py, mm, seed, reverse=False):
+    """History for sharded monitors: before anything is judged, every class of the package is parsed
+    and serialised once in this process, on ANOTHER converter and on the judged one - per-process /
+    per-shape caches shared between classes or converters must not leak (shards split the classes)."""
+    from .gen import rng_for, to_json
+    from .workload import TGen
+
+    warm = py.cv.get_converter()
+    order = py.roots(("S", "REQ", "RESP", "NOTIF", "AND"))
+    if reverse:
+        order = order[::-1]
+    n = 0
+    for root in order:
+        if root.cls is None:
+            continue
+        try:
+            g = TGen(mm, rng_for(seed, "warm", root.label), maxdepth=1, p_opt=0.0)
+            o = warm.structure(to_json(g.gen(root.t)), root.cls)
+            warm.unstructure(o, root.cls)
+            py.conv.unstructure(o, root.cls)
+            n += 1
+        except Exception:
+            pass
+    return n
